@@ -570,6 +570,8 @@ func runC03(c *core.Ctx) {
 			c.Sample(map[string]any{"part": "random", "food.yaml": clip(w.BookText, 600), "log.yaml": clip(w.LogText, 600), "element": x})
 		}
 	})
+	// the balance of a request served by an application value that has served other requests before
+	reusedApp(c, pool, c.N(200, 2500), nestedBalShape)
 	jobs, deaths := pool.Stats()
 	c.Count("l2_jobs", jobs)
 	c.Count("l2_process_deaths", deaths)
